@@ -11,7 +11,10 @@ import (
 
 // ---- strings from the documented grammar and near-misses --------------------------------------
 
-type gen struct{ r *rand.Rand }
+type gen struct {
+	r    *rand.Rand
+	noRe bool // the package's pattern could not be read: no capture requests
+}
 
 var wsPool = []string{" ", " ", " ", " ", "\t", "\n", "\r", "\f"}
 
@@ -301,6 +304,9 @@ func (g *gen) stringCase(s, tag string, legacy bool) hx.Case {
 		re, res = "tmpl relegacy ", "tmpl resolvelegacy "
 	}
 	lines := []string{"case tmpl str", re + tokS(s)}
+	if g.noRe {
+		lines = lines[:1]
+	}
 	order := g.r.Perm(3)
 	for _, st := range order {
 		for _, n := range names {
